@@ -17,6 +17,7 @@ CONSTANTS
   MaxCrashes = 1
   TrackHist = FALSE
   RecoveryAbortsOnLostRace = FALSE
+  IndexBeforeRoute = TRUE
 CONSTRAINT Bounded
 INVARIANT TypeOK
 INVARIANT CollectStranded
